@@ -70,6 +70,10 @@ def obligations(tier):
                    reach="h_struct_reach", encoded=ENC, bounds="struct and struct-array fields; right struct, two wrong struct classes, int, None, list", symbolic="array index"),
         Obligation("validation_on_after_disable_blocks", H, "h_disable", [{"depth": d} for d in (1, 2, 3)], cond_timeout=200, flags=("ieee",),
                    reach="h_disable_reach", encoded=ENC, bounds="nesting depth <= 3; each block left normally or by exception, each with ignore on/off", symbolic="exit bits, ignore bits"),
+        Obligation("disable_block_of_another_thread_is_not_mine", H, "h_other_thread", [{"mode": "held"}, {"mode": "overlap"}], cond_timeout=200, flags=("ieee",),
+                   reach="h_other_thread_reach", encoded=ENC,
+                   bounds="one other (real, untraced) thread inside disable_message_validation() while this thread assigns; two blocks of two threads overlapping without nesting",
+                   symbolic="the out-of-range int8 value and uint16 array element assigned by this thread"),
     ]
     return obs
 
